@@ -458,3 +458,25 @@ Proof.
   intros cfg ops l x. cbn zeta. pose proof (Inv_reach cfg ops) as HI.
   rewrite <- (inv_cred _ _ _ HI). apply oset_length_nobs, HI.
 Qed.
+
+(* Addrs(0) is, per distinct listen address in listen order, that address's
+   AddrsFor answer joined with its rest: so the per-local cap and order of
+   AddrsFor carry over to Addrs(0) segment by segment *)
+Lemma addrs_all_per_local_l : forall cfg ops, cap cfg = the_cap ->
+  let st := reach cfg ops in
+  addrs_all cfg st =
+    flat_map (fun la : laddr => map (fun x => (x, snd la)) (addrs_for cfg st la))
+             (dedup_laddr [] (listen cfg)) /\
+  (forall la, In la (dedup_laddr [] (listen cfg)) -> In la (listen cfg)) /\
+  (forall la, (length (addrs_for cfg st la) <= 3)%nat).
+Proof.
+  intros cfg ops Hcap. cbn zeta. split; [reflexivity|]. split.
+  - intros la. apply dedup_laddr_incl.
+  - intros la. pose proof (addrs_for_length cfg _ _ la (Inv_reach cfg ops)) as H.
+    rewrite Hcap, the_cap_three in H. exact H.
+Qed.
+
+(* the shipped default threshold meets the hypothesis 1 <= thresh of the
+   completeness half of c17_addrs_threshold *)
+Lemma default_threshold_positive_l : 1 <= ActivationThresh.
+Proof. vm_compute. discriminate. Qed.
